@@ -25,6 +25,7 @@ void Monitor::reset_run() {
     seq = 0;
     abort_target = nullptr;
     bad_ret = 0; bad_ret_where.clear();
+    compress_contract_violations = 0;
     g_canary_broken = 0;
 }
 bool Monitor::owns(const void *addr, int task) const {
@@ -80,6 +81,8 @@ Buf::~Buf() {
 void monitors_epilogue(Result &r, int64_t expected_illegal, int64_t expected_error) {
     if (g_canary_broken)
         r.violate("C07", "canary", "buffer", "a canary next to a buffer handed to the library was overwritten");
+    if (g_mon.compress_contract_violations)
+        r.violate("C20", "compression_contract", "fn_sha256_compression", "the replaced compression function was called " + std::to_string(g_mon.compress_contract_violations) + " time(s) with zero blocks or a NULL pointer; the header promises \"one or more contiguous 64-byte message blocks\"");
     if (g_mon.bad_ret)
         r.violate("C07", "bad_return", g_mon.bad_ret_where, "API returned a value other than 0/1");
     if (g_mon.error_count != expected_error)
@@ -107,6 +110,7 @@ bool documented_not_static(const char *api) {
 }
 
 extern "C" void sim_model_compression(uint32_t *state, const unsigned char *blocks, size_t n) {
+    if (n == 0 || blocks == NULL || state == NULL) { g_mon.compress_contract_violations++; return; }
     ref::sha256_compress(state, blocks, n);
 }
 
